@@ -390,7 +390,8 @@ func recycleMotifs(emit func(string)) {
 		// the recycled struct may also be picked up by a view, a clone or a result of a LIVE tensor
 		// (Slice, Clone and the engines borrow structs from the same pool)
 		reuse := []string{"slice:%p:0.2.1;T:%d:1,0;at:%d:0,1", "slice:%p:_/1.3.1;T:%d:1,0;UT:%d", "clone:%p;T:%d:1,0;transpose:%d", "slice:%p:0.2.1;T:%d:1,0;mat:%d",
-			"bins:add:%p:1:left:safe;T:%d:1,0;UT:%d", "safeT:%p:1,0;UT:%d", "slice:%p:1.3.1;reshape:%d:8", "mat:%p;T:%d:1,0"}
+			"bins:add:%p:1:left:safe;T:%d:1,0;UT:%d", "safeT:%p:1,0;UT:%d", "slice:%p:1.3.1;reshape:%d:8", "mat:%p;T:%d:1,0",
+			"repeat:%p:0:2", "repeat:%p:1:2;T:%d:1,0", "stack:%p:0:%p", "concat:%p:1:%p", "reduce:sum:%p:0", "un:neg:%p:safe;T:%d:1,0;at:%d:0,1"}
 		for _, l := range lives {
 			if strings.Contains(l, "ret:0") {
 				continue
